@@ -122,7 +122,10 @@ class C12(Scenario):
             # forms that share arguments / spaces / measures with forms derived from them
             cfg["n_meshes"] = rng.choice([1, 2, 2, 3])
             cfg["n_forms"] = rng.randint(1, 3)
-            cfg["n_derived"] = rng.randint(2, 6)
+            cfg["n_derived"] = rng.randint(3, 8)
+            cfg["n_combined"] = rng.randint(1, 4)
+            # algorithms that create new counted objects inside (auxiliary coefficients, arguments)
+            cfg["derive_bias"] = ["action", "action1", "derivative", "replace", "form_call", "form_call_coefs", "energy_norm", "adjoint", "coordinate_derivative"]
             fam["mixed_space"] = 0.25
             fam["flat_form"] = 0.3
             fam["mesh_sequence"] = 0.35
